@@ -25,6 +25,27 @@ CHECKS = {
         note="trusts rustc's MIR construction and name resolution, the driver's serialisation, std Mutex/Condvar; unwind edges "
              "(panics inside the render closure) excluded; x86_64 cfg only",
         ref="DESIGN.md section 3 C08"),
+    "C02": dict(
+        technique="target-feature must-dataflow on MIR (runtime detection dominance, call-graph summaries) + unsafe-site census with per-class guard obligations + compile_fail witnesses",
+        text="Decides for every function and every CPU: a #[target_feature] kernel is only entered where the features are enabled "
+             "or detected on every path (R-TF); every unsafe site belongs to a reviewed class whose guard obligation is re-checked "
+             "(R-UNSAFE). Does not decide the index arithmetic inside SIMD kernels (class h).",
+        note="x86_64 only; trusts rustc's target-feature tables and std_detect's meaning of a feature name",
+        ref="DESIGN.md section 3 C02"),
+    "C07": dict(
+        technique="who-may-call bans over resolved callees, closure-capture census with Freeze verdicts, monotone-store dataflow on shared Result slots",
+        text="Decides structural necessary conditions of schedule independence for all schedules and pool sizes: no decoder crate can "
+             "observe pool size, thread identity, clock, environment or hash seed; parallel closures share only reviewed slots; every "
+             "store into a shared error slot is monotone towards Err; lazy statics are write-once. Does not decide bit-identity of samples.",
+        note="trusts rustc's capture analysis and callee resolution; rayon itself is trusted",
+        ref="DESIGN.md section 3 C07"),
+    "C13": dict(
+        technique="field-access census + atomic-operation typing + closure-body shape + ownership (drop of handle temporaries) on MIR",
+        text="Decides the budget arithmetic for every interleaving: bytes_left is only changed by fetch_update(checked_sub) and "
+             "fetch_add of exactly the amount recorded in the handle; handles cannot be forged, are not dropped as temporaries, are not "
+             "leaked, and exhaustion is never unwrapped. Does not decide untracked allocations or Arc cycles.",
+        note="trusts std atomics; count*size_of wrap in release is bounded by C01 limits, not re-proved",
+        ref="DESIGN.md section 3 C13"),
     "C20": dict(
         technique="protocol-shape rules on MIR: who-may-write census, test-and-set shape, must-pass-through, guard liveness dataflow",
         text="Decides the structural safety argument of the render-handle protocol for every interleaving: exact writer/locker "
